@@ -397,7 +397,9 @@ func (c07) Execute(sc core.Script, keep bool) *core.Result {
 				report("rejected-authentic", "Open", "opener", param, fmt.Sprintf("a triple exactly as sealed (pt %d bytes, aad %d, nonce %d, tag %d; %s) was rejected: %v", len(expect.pt), len(aad), len(nonce), spec.TagSize, kind, err))
 				break
 			}
-			if !bytes.Equal(outPt[len(prefix):], expect.pt) || !bytes.Equal(outPt[:len(prefix)], prefix) {
+			// only the released plaintext is judged here; what happens to the bytes of dst in
+			// front of it is the buffer contract (C10)
+			if len(outPt) < len(prefix) || !bytes.Equal(outPt[len(prefix):], expect.pt) {
 				report("wrong-plaintext", "Open", "opener", param+"/"+dc, fmt.Sprintf("opened plaintext %x, sealed plaintext %x", outPt, expect.pt))
 			}
 			continue
@@ -447,12 +449,15 @@ func (c07) Shrinks(sc core.Script) []core.Script {
 		c.Deliveries = c.Deliveries[:n/2]
 		out = append(out, c)
 	}
-	for i := range s.Deliveries {
+	for _, rg := range core.DropRanges(len(s.Deliveries)) {
 		c := cp()
-		c.Deliveries = append(c.Deliveries[:i], c.Deliveries[i+1:]...)
+		c.Deliveries = append(c.Deliveries[:rg[0]], c.Deliveries[rg[1]:]...)
 		out = append(out, c)
 	}
 	for i, d := range s.Deliveries {
+		if len(s.Deliveries) > 24 {
+			break
+		}
 		for j := range d.Muts {
 			c := cp()
 			c.Deliveries[i].Muts = append(c.Deliveries[i].Muts[:j], c.Deliveries[i].Muts[j+1:]...)
